@@ -123,6 +123,7 @@ def make_arrays(spec, data, suffix=''):
         n = a['nall']
         pa = get_particle_array(name='a%d' % i, x=np.zeros(n))
         pa.add_property('ik', type='int')
+        pa.add_property('jk', type='int')
         for nm, (ty, st) in sorted(spec['slots'].items()):
             pa.add_property(nm, type=P.PTYPE[ty], stride=st)
         for nm, st in sorted(spec['rats'].items()):
@@ -207,6 +208,8 @@ def build_groups(spec, mod):
             o = getattr(mod, 'Pq%d' % e['eid'])(
                 'a%d' % e['dest'], ['a%d' % s for s in e['srcs']],
                 ca=float(at['ca']), ci=int(at['ci']), cj=int(at.get('cj', 1)),
+                ni=int(at.get('ni', -1)), nj=int(at.get('nj', -3)),
+                bi=2 ** int(at.get('be', 0)),
                 cv=[float(v) for v in at['cv']])
             eq_ids[id(o)] = e['eid']
             eqs.append(o)
